@@ -360,6 +360,9 @@ def c10_state(l3, machine, sidx, alloc, L, stats, timeout_ms=30000):
             if r:
                 findings.append({'kind': 'c10-diff', 'what': 'feed reads input outside [start, end) (e.g. on re-invocation after a yield at the chunk end)', 'detail': str(o.why)[:160], 'abs_code': a.res[1], **witness(r[1])})
             return
+        if o.kind in ('UNWIND', 'REINVOKE-UNWIND'):
+            d['cov']['paths_skipped_unwinding_reported_by_C04'] = d['cov'].get('paths_skipped_unwinding_reported_by_C04', 0) + 1
+            return
         if o.kind != 'RET':
             conds.append((f'C run ends in {o.kind}: {o.why}', z3.BoolVal(False)))
         else:
